@@ -25,6 +25,7 @@ EXPLANATION = (
     ' Round 4: (10) ListBox.get_first_visible_pos returns a count obtained by walking get_prev(), never a walker position, and positions are never tested for being integers; (11) Scrollable.render returns the untrimmed canvas only when it fits in both directions.'
     ' Round-4 triage: (3, extended) the relative-mode total is raised to position + visible amount before the maximum position is derived from it; (12) INV-RENDER - when rendering moves / clamps the position for the size at hand, the canvases cached for other sizes are dropped (shared with C06.9). Round 5: (13) the one-shot scroll request is reset on every path through _adjust_trim_top; (14) the wheel arithmetic of ScrollBar normalises a from-the-end position first.'
     ' Round 6: (15) every normal return of Scrollable.render() has stored the flag keypress() routes by (_forward_keypress), also the early return for content that fits (fix 2cfcfcf).'
+    ' Round 7: (16) the cview top / left trims are mirror images (a second trim adds to the offset a view already has): the slice of a canvas that contains pre-trimmed views is still rows p.. of it.'
 )
 NOT_DECIDED = "0 <= position <= total - height after every history as a value statement, thumb monotonicity, rounding of the thumb, wheel handling, relative-scroll estimates."
 ASSUMPTIONS = []
@@ -505,6 +506,14 @@ def rule_one_shot_consumed(ctx: Ctx) -> RuleResult:
     return rr
 
 
+def _trim_mirror(ctx: Ctx) -> RuleResult:
+    """Scrollable cuts its slice with canv.trim(p): rows p.. of the wrapped canvas only if a second top trim adds to the
+    offset a view already has (shared with C02.16)."""
+    from . import c02
+
+    return c02.rule_trim_mirror(ctx, "C20.16")
+
+
 def rule_forward_flag(ctx: Ctx) -> RuleResult:
     """'Keys the wrapped widget handles are not also used for scrolling': Scrollable.keypress() offers a key to the
     wrapped widget only when `_forward_keypress` says so, and that flag is worked out by render() from what is in
@@ -575,6 +584,7 @@ def run(ctx: Ctx):
         rule_one_shot_consumed(ctx),
         rule_raw_position_arithmetic(ctx),
         rule_forward_flag(ctx),
+        _trim_mirror(ctx),
         fresh.run_fresh(p, "C20.7", ["urwid.canvas"], floor=30),
         inv.run_inv(p, "C20.6", floor_classes=2, floor_nontrivial=1, exceptions=INV_EXCEPTIONS, only_classes={"Scrollable", "ScrollBar"}),
         fwd.run_fwd(p, "C20.8", ("urwid.widget.scrollable", "urwid.widget.listbox"), floor=20, description="the scrolling protocol (get_scrollpos, rows_max, get_first_visible_pos, ...) and the renderers pass the focus flag on: the position is computed for the rendering that is shown"),
